@@ -185,6 +185,19 @@ def m_filter_map(ex, site, a):
     return lazy(nx, 'filter_map')
 
 
+@model(rx(r'^<.* as Iterator>::map_while$'))
+def m_map_while(ex, site, a):
+    it = to_iter(ex, a[0]); f = a[1]; st = {'done': False}
+    def nx(ex):
+        if st['done']: return None
+        v = it.next(ex)
+        if v is None: return None
+        r = ex.call_value(f, [v])
+        if r.variant == 1: return r.fields[0]
+        st['done'] = True; return None
+    return lazy(nx, 'map_while')
+
+
 @model(rx(r'^<.* as Iterator>::(flat_map|flatten)$'))
 def m_flat_map(ex, site, a):
     it = to_iter(ex, a[0]); f = a[1] if site.method == 'flat_map' else None; cur = [None]
